@@ -14,14 +14,14 @@ from ..flow import Enumerator, RETURN, fmt
 from ..symx import Expander, TupleV
 from ..anf import R, Unsupported
 from .. import anf
-from .common import struct_ob, formula_ob, guard, last_return, U
+from .common import dtype_hazard_obligations, struct_ob, formula_ob, guard, last_return, U
 from . import mcmc
 from ..report import AnalysisError
 from ..term import Resolver, pmatch
 
 HMC = "inference/mcmc/hmc/__init__.py"
 MASS = "inference/mcmc/hmc/mass.py"
-FLOORS = {"splitting-structure": 2, "shear": 2, "mass-law": 3, "momentum-law": 3, "hamiltonian-consistent": 2,
+FLOORS = {"float-arithmetic": 2, "splitting-structure": 2, "shear": 2, "mass-law": 3, "momentum-law": 3, "hamiltonian-consistent": 2,
           "fd-denominator": 1, "reflect-commutes-with-mass": 3, "force-is-potential-gradient": 2}
 
 
@@ -77,6 +77,8 @@ def run(prog, tier):
 
     # ---------------------------------------------------------------- reflection commutes with the mass
     obs.extend(_reflect_mass(prog, ci))
+
+    obs.extend(dtype_hazard_obligations(prog, "float-arithmetic", ['inference/mcmc/hmc/__init__.py', 'inference/mcmc/hmc/mass.py']))
 
     meta = {
         "explanation": "Each leapfrog is abstractly interpreted (loops unrolled) into a word over Kick(c)/Drift(c)/Reflect with "
